@@ -34,6 +34,8 @@ def main():
         j = json.loads(m.read_text())
         res = j.get("check_result", "")
         det = [t.split("=")[0] for t in res.split() if t.endswith("=DETECTED")]
+        if res.strip() == "DETECTED":  # first seeds: verdict of the seed's own property check only
+            det = [j.get("property") or d.name.split("-")[0]]
         if update:
             det = list(j.get("checks_run") or det)
         if not det:
